@@ -19,9 +19,10 @@
  * poll/select give their arrays.  Every history ends with a wait. */
 #include "backend_digest.h"
 
-#define NSLOT 2
+#define NSLOT 3                      /* -P slots=2 (default) or 3 */
+static int nslot = 2;
 #define NT 7
-static const int slot_fd[NSLOT] = { 20, 64 }, slot_peer[NSLOT] = { 21, 65 };
+static const int slot_fd[NSLOT] = { 20, 64, 130 }, slot_peer[NSLOT] = { 21, 65, 131 };   /* 64 and 130 cross select's 64- and 128-bit set sizes */
 static const struct { short ev; const char *name; int et; } T[NT] = {
 	{ EV_READ | EV_PERSIST, "R", 0 }, { EV_WRITE | EV_PERSIST, "W", 0 }, { EV_READ | EV_WRITE | EV_PERSIST, "RW", 0 },
 	{ EV_READ | EV_CLOSED | EV_PERSIST, "RC", 0 }, { EV_READ, "R1", 0 },
@@ -67,7 +68,7 @@ static short want_events(int s, int *et)
 	for (int t = 0; t < NT; t++) if (added[s][t]) { u |= T[t].ev & (EV_READ | EV_WRITE | EV_CLOSED); if (T[t].et) *et = 1; }
 	return u;
 }
-static int slot_of_fd(int fd) { for (int s = 0; s < NSLOT; s++) if (slot_fd[s] == fd) return s; return -1; }
+static int slot_of_fd(int fd) { for (int s = 0; s < nslot; s++) if (slot_fd[s] == fd) return s; return -1; }
 
 static void evstr(short e, int et, char *b) { sprintf(b, "%s%s%s%s", e & EV_READ ? "R" : "", e & EV_WRITE ? "W" : "", e & EV_CLOSED ? "C" : "", et ? "+ET" : ""); if (!*b) strcpy(b, "-"); }
 
@@ -93,7 +94,7 @@ static void prewait(int kind, void *a, long n, int64_t timeout_us)
 	(void)timeout_us;
 	n_waits++; ops_since_wait = 0;
 	MC_COUNT("c05_waits_observed");
-	for (int s = 0; s < NSLOT; s++) { have[s] = -1; het[s] = 0; cnt[s] = 0; }
+	for (int s = 0; s < nslot; s++) { have[s] = -1; het[s] = 0; cnt[s] = 0; }
 	if (kind == 'e') {
 		struct bk_epreg r[64]; int epfd = *(int *)a;
 		int k = bk_epoll_registrations(epfd, r, 64);
@@ -109,7 +110,7 @@ static void prewait(int kind, void *a, long n, int64_t timeout_us)
 			have[s] = (r[i].events & EPOLLIN ? EV_READ : 0) | (r[i].events & EPOLLOUT ? EV_WRITE : 0) | (r[i].events & EPOLLRDHUP ? EV_CLOSED : 0);
 			het[s] = !!(r[i].events & EPOLLET);
 		}
-		for (int s = 0; s < NSLOT; s++) compare_slot(s, have[s], het[s], 1, 1);
+		for (int s = 0; s < nslot; s++) compare_slot(s, have[s], het[s], 1, 1);
 	} else if (kind == 'p') {
 		struct pollfd *p = a;
 		if (BK != BK_POLL) mc_fail("harness:wrong-wait", "poll wait on backend %s", bk_name[BK]);
@@ -123,7 +124,7 @@ static void prewait(int kind, void *a, long n, int64_t timeout_us)
 			have[s] = (p[i].events & POLLIN ? EV_READ : 0) | (p[i].events & POLLOUT ? EV_WRITE : 0) | (p[i].events & POLLRDHUP ? EV_CLOSED : 0);
 			if (p[i].events & ~(POLLIN | POLLOUT | POLLRDHUP)) mc_fail(K("wrong-conditions"), "fd %d: unexpected poll bits %#x", p[i].fd, p[i].events);
 		}
-		for (int s = 0; s < NSLOT; s++) compare_slot(s, have[s], 0, 1, 0);
+		for (int s = 0; s < nslot; s++) compare_slot(s, have[s], 0, 1, 0);
 	} else if (kind == 's') {
 		fd_set **sets = a;
 		if (BK != BK_SELECT) mc_fail("harness:wrong-wait", "select wait on backend %s", bk_name[BK]);
@@ -138,7 +139,7 @@ static void prewait(int kind, void *a, long n, int64_t timeout_us)
 			have[s] = (r ? EV_READ : 0) | (w ? EV_WRITE : 0);
 		}
 		/* a slot beyond nfds is not watched: have stays -1 */
-		for (int s = 0; s < NSLOT; s++) compare_slot(s, have[s], 0, 0, 0);
+		for (int s = 0; s < nslot; s++) compare_slot(s, have[s], 0, 0, 0);
 	}
 }
 
@@ -168,8 +169,8 @@ static void do_del(int s, int t)
 static uint64_t canon(void)
 {
 	uint64_t h = mc_hash_u64(0x5c05, (uint64_t)BK);
-	for (int s = 0; s < NSLOT; s++) { int m = 0; for (int t = 0; t < NT; t++) m |= added[s][t] << t; h = mc_hash_u64(h, (uint64_t)m); }
-	return mc_hash_u64(h, bk_impl_digest(base, BK, slot_fd, NSLOT));
+	for (int s = 0; s < nslot; s++) { int m = 0; for (int t = 0; t < NT; t++) m |= added[s][t] << t; h = mc_hash_u64(h, (uint64_t)m); }
+	return mc_hash_u64(h, bk_impl_digest(base, BK, slot_fd, nslot));
 }
 
 static void one_wait(void)
@@ -183,14 +184,14 @@ static void one_wait(void)
 static void body(void)
 {
 	int D = mc_param("depth", 4), pruned = 0;
-	BK = mc_param("backend", 0);
+	BK = mc_param("backend", 0); nslot = mc_param("slots", 2); if (nslot < 1 || nslot > NSLOT) nslot = 2;
 	NTB = (BK == BK_EPOLL || BK == BK_EPOLL_CL) ? NT : NT - 2;
 	vclock_reset(); vclock_prewait_hook = prewait; vclock_idle_hook = NULL;
 	bk_warnings = 0; bk_last_warning[0] = 0; n_cb = n_waits = ops_since_wait = 0;
 	memset(added, 0, sizeof added);
 	base = bk_new_base(BK, mc_param("sigfd", 0));
 	if (!base) return;
-	for (int s = 0; s < NSLOT; s++) {
+	for (int s = 0; s < nslot; s++) {
 		if (open_slot(s) < 0) return;
 		for (int t = 0; t < NT; t++) event_assign(&evs[s][t], base, slot_fd[s], T[t].ev, cb, (void *)(intptr_t)(s * NT + t));
 	}
@@ -198,7 +199,7 @@ static void body(void)
 	struct timeval far = { 100000, 0 };
 	event_assign(&sentinel, base, -1, EV_PERSIST, sentinel_cb, NULL); event_add(&sentinel, &far);
 
-	const int n_toggle = NSLOT * NTB, n_ops = n_toggle + 2 * NSLOT + 1;
+	const int n_toggle = nslot * NTB, n_ops = n_toggle + 2 * nslot + 1;
 	for (int step = 0; step < D; step++) {
 		int op = mc_choose(n_ops + 1, 0, "op");
 		if (!op) break;
@@ -209,7 +210,7 @@ static void body(void)
 			else if (any_added(s, !T[t].et)) { mc_observe("skip-mix(%d,%s) ", slot_fd[s], T[t].name); MC_COUNT("c05_op_skipped_et_lt_mix"); }
 			else { do_add(s, t); mc_observe("add(%d,%s) ", slot_fd[s], T[t].name); MC_COUNT("c05_op_add"); }
 			ops_since_wait++;
-		} else if (op < n_toggle + 2 * NSLOT) {
+		} else if (op < n_toggle + 2 * nslot) {
 			int s = (op - n_toggle) / 2, readd = (op - n_toggle) & 1, was[NT];
 			for (int t = 0; t < NT; t++) { was[t] = added[s][t]; if (was[t]) do_del(s, t); }
 			close_slot(s);
@@ -229,10 +230,10 @@ static void body(void)
 	}
 	if (!pruned && !mc_failed() && ops_since_wait) { one_wait(); mc_observe("final-wait "); }
 
-	for (int s = 0; s < NSLOT; s++) for (int t = 0; t < NT; t++) event_del(&evs[s][t]);
+	for (int s = 0; s < nslot; s++) for (int t = 0; t < NT; t++) event_del(&evs[s][t]);
 	event_del(&sentinel);
 	event_base_free(base); base = NULL;
-	for (int s = 0; s < NSLOT; s++) close_slot(s);
+	for (int s = 0; s < nslot; s++) close_slot(s);
 	vclock_prewait_hook = NULL;
 	if (mcx_alloc_live() != live0) mc_fail(K("leak"), "%ld library allocations left", mcx_alloc_live() - live0);
 	if (mcx_fd_signature() != fd0) mc_fail(K("fd-table-changed"), "fd table differs from baseline after teardown");
@@ -241,7 +242,7 @@ static void body(void)
 static void init(void)
 {
 	bk_process_init();
-	for (int s = 0; s < NSLOT; s++)
+	for (int s = 0; s < nslot; s++)
 		if (fcntl(slot_fd[s], F_GETFD) != -1 || fcntl(slot_peer[s], F_GETFD) != -1) { fprintf(stderr, "c05: slot fd numbers are in use\n"); _exit(2); }
 	live0 = mcx_alloc_live(); fd0 = mcx_fd_signature();
 }
